@@ -172,8 +172,22 @@ def _grid_cases():
             return calls
         return c
 
+    def gen_shape(rng):
+        return {"self": {"_ndims": rng.choice([0, 1, 2, 2, 2, 3, 4, 5, -1, rng.randrange(1, 40)])}}
+
+    def call_shape(a):
+        calls = []
+
+        class Shape:        # what `Grid._connect_cells` reads and calls, nothing else
+            _ndims = a["self"]["_ndims"]
+            _connect_cells_2d = lambda self: calls.append(2)      # noqa: E731
+            _connect_cells_nd = lambda self: calls.append(0)      # noqa: E731
+
+        Grid._connect_cells(Shape())
+        return calls
+
     two_d = {f"{k}._connect_cells_2d": (gen_cells2, call_cells2(k)) for k in ("OrthogonalMooreGrid", "OrthogonalVonNeumannGrid", "HexGrid")}
-    return {**two_d, "Grid._connect_single_cell_2d": (gen(2), call(2)), "Grid._connect_single_cell_nd": (gen("n"), call("n")),
+    return {**two_d, "Grid._connect_cells": (gen_shape, call_shape), "Grid._connect_single_cell_2d": (gen(2), call(2)), "Grid._connect_single_cell_nd": (gen("n"), call("n")),
             "OrthogonalMooreGrid._connect_cells_nd": (gen_cells, call_cells("OrthogonalMooreGrid")),
             "OrthogonalVonNeumannGrid._connect_cells_nd": (gen_cells, call_cells("OrthogonalVonNeumannGrid"))}
 
@@ -330,18 +344,18 @@ def _steps_cases():
 
     class M(mesa.Model):
         def step(self, *args, **kwargs):
-            seen.append(self.steps)
+            seen.append((self.steps, list(args), [(int(k[1:]), v) for k, v in kwargs.items()]))
 
     def call(a):
         m = M()
         m.steps = a["self"]["steps"]
         del seen[:]
-        mesa.Model._wrapped_step(m, *a["args"], **a["kwargs"])
+        mesa.Model._wrapped_step(m, *a["args"], **{f"k{k}": v for k, v in a["kwargs"]})
         return (list(seen), m.steps)
 
     def gen(rng):
         return {"self": {"steps": rng.choice([0, 0, 1, 2, 7, 1000, rng.randrange(10**6)])},
-                "args": [rng.randrange(5) for _ in range(rng.randrange(3))], "kwargs": {"k": 1} if rng.random() < 0.3 else {}}
+                "args": [rng.randrange(5) for _ in range(rng.randrange(3))], "kwargs": [(k, rng.randrange(5)) for k in rng.sample(range(4), rng.choice([0, 0, 1, 2]))]}
 
     return {"Model._wrapped_step": (gen, call)}
 
@@ -423,4 +437,5 @@ def _eval_lean(header, cmds, chunk=800, workers=3):
 
 
 def _ordered_params(node, fn):
-    return [(a.arg, fn.params[a.arg]) for a in node.args.args if a.arg != "self"]
+    return [(a.arg, fn.params[a.arg]) for a in node.args.args if a.arg != "self"] + \
+        [(x.arg, fn.varargs[x.arg]) for x in (node.args.vararg, node.args.kwarg) if x is not None and x.arg in fn.varargs]
